@@ -46,6 +46,29 @@ class Sym:
         self.defs = body.defs()
         self._cache = {}
         self._visiting = set()
+        # field-wise overwrites of a local that also has a whole definition (`let mut t = f(); t.words = ..`): the value
+        # of the local is then NOT the value of its definition; it becomes ('upd', base, ((name, f, value), ..))
+        self.partial = {}
+        for bi, si, st in body.iter_stmts():
+            if st["k"] == "assign" and st["place"]["p"] and not body.blocks[bi]["cleanup"]:
+                p0 = st["place"]["p"][0]
+                l = st["place"]["l"]
+                if isinstance(p0, dict) and "f" in p0 and not (1 <= l <= body.arg_count):
+                    self.partial.setdefault(l, []).append((p0, st, len(st["place"]["p"]) == 1))
+
+    def _with_updates(self, l, e):
+        ups = self.partial.get(l)
+        if not ups or l in self._visiting:
+            return e
+        self._visiting.add(l)
+        try:
+            out = []
+            for p0, st, direct in ups:
+                v = self.rvalue(st["rv"]) if direct else ("unknown", "nested field overwrite")
+                out.append((str(p0.get("name")), p0["f"], v))
+        finally:
+            self._visiting.discard(l)
+        return ("upd", e, tuple(out), l)
 
     # ------------------------------------------------------------------
     def const(self, c):
@@ -95,11 +118,30 @@ class Sym:
             e = self.project(e, pr)
         return e
 
+    def dest(self, p):
+        """a place that is being written: field-wise overwrites of the root local are not substituted into it"""
+        e = self.local(p["l"])
+        if e[0] == "upd":
+            e = e[1]
+        for pr in p["p"]:
+            e = self.project(e, pr)
+        return e
+
     def project(self, e, pr):
         if pr == "deref":
             return deref(e)
         if isinstance(pr, dict):
             if "f" in pr:
+                if e[0] == "upd":
+                    hits = [u[2] for u in e[2] if u[1] == pr["f"]]
+                    base = self.project(e[1], pr)
+                    if not hits:
+                        return base
+                    alts = []
+                    for a in hits + [base]:
+                        if a not in alts:
+                            alts.append(a)
+                    return ("phi", -(e[3] * 64 + pr["f"] + 1), tuple(alts))
                 if e[0] == "binop" and e[1].endswith("WithOverflow"):
                     if pr["f"] == 0:
                         return ("binop", e[1][:-len("WithOverflow")], e[2], e[3])
@@ -145,7 +187,7 @@ class Sym:
                             alts.append(a)
                 finally:
                     self._visiting.discard(l)
-                e = ("phi", l, tuple(alts))
+                e = self._with_updates(l, ("phi", l, tuple(alts)))
             else:
                 e = ("local", l)
             self._cache[l] = e
@@ -159,6 +201,7 @@ class Sym:
                 e = self.call_expr(node, bi)
         finally:
             self._visiting.discard(l)
+        e = self._with_updates(l, e)
         self._cache[l] = e
         return e
 
@@ -220,7 +263,7 @@ def strip_sites(e):
     if e[0] == "call":
         return ("call", e[1], tuple(strip_sites(a) for a in e[2]))
     if e[0] == "phi":
-        return ("phi", tuple(strip_sites(a) for a in e[2]))
+        return ("phi", tuple(strip_sites(a) for a in (e[2] if len(e) > 2 else e[1])))
     if e[0] == "local":
         return e
     return tuple(strip_sites(x) for x in e)
